@@ -952,7 +952,16 @@ func (ex *Exec) jump(fr *Frame, to *ssa.BasicBlock) {
 		fr.visits = map[*ssa.BasicBlock]int{}
 	}
 	fr.visits[to]++
-	if fr.visits[to] > ex.maxVisits {
+	if th := ex.cur; th != nil && th.id != 0 && ex.lenient == 0 && fr.visits[to] > ex.maxVisits/5 {
+		// a worker goroutine that keeps going round a loop (a fifth of the loop bound) is treated as
+		// spinning: it is parked for good, counts as a live thread, and the harness goes on - its
+		// liveness assertions (handler returned, no worker left) then decide. Recorded in the evidence.
+		ex.stubsHit[fmt.Sprintf("spinning-thread-parked:%s", fr.fn)] = true
+		th.state = tBlocked
+		th.waitFn = func() bool { return false }
+		th.waitWhat = "spinning (loop bound)"
+		fr.visits[to] = 0
+	} else if fr.visits[to] > ex.maxVisits {
 		panic(pathEnd{kind: "bound", msg: fmt.Sprintf("loop bound %d at %s block %d", ex.maxVisits, fr.fn, to.Index)})
 	}
 	fr.prev = fr.block
